@@ -33,7 +33,46 @@ def _mat(case):
     return np.array(case["A"], dtype=DTYPES.get(case.get("dtype", "int")))
 
 
+def check_big(case):
+    """is_complete / degrees / skeleton / is_clique on graphs with hundreds of nodes (numpy-level oracle)."""
+    import sempler.utils as utils
+    p, missing = case["p"], [tuple(e) for e in case["missing"]]
+    order = [(case["a"] * k + 3) % p for k in range(p)]
+    pos = np.empty(p, dtype=int)
+    pos[order] = np.arange(p)
+    A = (pos[:, None] < pos[None, :]).astype(float)                   # complete DAG in a scrambled causal order
+    if case.get("weighted"):
+        A = A * np.where((np.add.outer(np.arange(p), np.arange(p)) % 3) == 0, -1.5, 0.75)
+    for (i, j) in missing:
+        A[i, j] = A[j, i] = 0
+    if case.get("undirected"):
+        A = ((A + A.T) != 0).astype(int)
+    keep = A.copy()
+    adj = (A != 0) | (A.T != 0)
+    want_complete = not missing
+    got = must(lib(utils.is_complete, A), "is_complete")
+    if bool(got) != want_complete:
+        raise Violation("is_complete_wrong", "is_complete = %r for the complete graph on %d nodes minus the %d edge(s) %s"
+                        % (got, p, len(missing), missing))
+    deg = np.asarray(must(lib(utils.degrees, A), "degrees"))
+    if deg.shape != (p,) or not np.array_equal(deg.astype(int), adj.sum(axis=0)):
+        raise Violation("degrees_wrong", "degrees wrong on the %d-node near-complete graph" % p)
+    sk = np.asarray(must(lib(utils.skeleton, A), "skeleton"))
+    if sk.shape != (p, p) or not np.array_equal(sk != 0, adj):
+        raise Violation("skeleton_wrong", "skeleton wrong on the %d-node near-complete graph" % p)
+    S = set(range(0, p, 2))
+    cl = must(lib(utils.is_clique, set(S), A), "is_clique")
+    want_cl = not any(i in S and j in S for (i, j) in missing)
+    if bool(cl) != want_cl:
+        raise Violation("is_clique_wrong", "is_clique(even nodes) = %r, expected %r (missing %s)" % (cl, want_cl, missing))
+    if not np.array_equal(A, keep):
+        raise Violation("input_modified", "a decomposition function modified its argument")
+    return ["big_graph", "weighted" if case.get("weighted") else "binary", "proper_S"]
+
+
 def check(case):
+    if case["sub"] == "big":
+        return check_big(case)
     import sempler.utils as utils
     A = _mat(case)
     keep = A.copy()
@@ -163,7 +202,25 @@ def _run_exh(acc, job):
 
 @st.composite
 def _hyp_case(draw):
-    kind = draw(st.sampled_from(["pdag", "embedded", "weighted", "weighted", "weighted_embedded", "faithless", "wide", "wide_weighted"]))
+    kind = draw(st.sampled_from(["pdag", "embedded", "weighted", "weighted", "weighted_embedded", "faithless", "wide", "wide_weighted", "star"]))
+    if kind == "star":
+        # a collider with 30..40 parents, some of them joined by (un)directed edges
+        k = draw(st.sampled_from([30, 31, 32, 33, 34, 40]))
+        p = k + draw(st.integers(1, 4))
+        lab = list(draw(st.permutations(list(range(p)))))
+        c, pars = lab[0], lab[1:k + 1]
+        A = [[0] * p for _ in range(p)]
+        for q in pars:
+            A[q][c] = 1
+        for _ in range(draw(st.integers(1, 4))):
+            i, j = draw(st.sampled_from(pars)), draw(st.sampled_from(pars))
+            if i != j and not A[i][j] and not A[j][i]:
+                if draw(st.booleans()):
+                    A[i][j] = A[j][i] = 1
+                else:
+                    A[min(i, j)][max(i, j)] = 1
+        case = {"A": A, "dtype": draw(st.sampled_from(["int", "float"])), "subsets": [sorted(pars[:3] + [c])], "sub": "hyp", "kind": kind}
+        return case
     if kind == "pdag":
         case = {"A": draw(S.pdag(1, 9, weights=(3, 3, 2))), "dtype": draw(st.sampled_from(["int", "float", "uint8", "bool", "float32"]))}
     elif kind == "wide":
@@ -194,6 +251,8 @@ def _hyp_check(case):
 
 def plan(tier, seed):
     jobs = []
+    for n, (p, miss) in enumerate([(447, 1), (448, 1), (500, 1), (500, 0), (600, 3), (300, 1)] + ([(1000, 2), (1415, 1)] if tier == "thorough" else [])):
+        jobs.append({"sub": "big", "seed": seed, "p": p, "n_missing": miss, "index": n, "cost": 9})
     for p in (1, 2, 3):
         jobs.append({"sub": "pdag_exh", "p": p, "shard": 0, "nshards": 1, "seed": seed, "cost": 1})
     for k in range(16):
@@ -207,6 +266,19 @@ def plan(tier, seed):
 
 def run(job):
     acc = Acc(job["sub"])
+    if job["sub"] == "big":
+        p = job["p"]
+        a = next(x for x in range(p // 3 + job["seed"] % 5, p) if np.gcd(x, p) == 1)
+        missing = [[(7 * (k + 1) + job["seed"]) % p, (11 * (k + 1) + 3 * job["seed"] + 1) % p] for k in range(job["n_missing"])]
+        missing = [e for e in missing if e[0] != e[1]]
+        case = {"sub": "big", "p": p, "a": int(a), "missing": missing, "weighted": job["index"] % 2 == 0, "undirected": job["index"] % 3 == 2}
+        try:
+            acc.record(case, check(case), True, by_construction=True)
+        except Violation as v:
+            acc.record(case, [], False)
+            acc.violation(case, v)
+        acc.exhaustive = False
+        return acc
     if job["sub"] == "pdag_exh":
         _run_exh(acc, job)
     else:
